@@ -76,7 +76,4 @@ Proof.
   repeat constructor; simpl; intuition discriminate.
 Qed.
 
-(* step_ok (hypothesis of relocate_items_swallow) is satisfiable for every observable and invariant: the empty step.  (An instance for a real
-   relocation step with a concrete multiset observable is NOT carried out -- see NOTES "NOT covered".) *)
-Lemma step_ok_witness : forall X (obs : heap -> X) (Inv : heap -> Prop), step_ok X obs Inv (ret tt).
-Proof. intros X obs Inv s HI. apply wp_ret. split; [reflexivity|exact HI]. Qed.
+(* step_ok: see MigrateStep.v (a real relocation-step instance) *)
